@@ -246,6 +246,25 @@ func (s *sys) Step(op int) bsr {
 		viols = append(viols, bfs.Viol{Sig: sig("invariant", "what", stripPaths(b)), Detail: b})
 	}
 
+	// the kind of an entry (directory, file, symbolic link) is decided when it
+	// is made: no call changes it while the entry exists. Only Rename puts
+	// another node at a path that stays occupied (its destination). Code that
+	// keeps the kind in the same word as the permissions can lose it to a mode
+	// argument; the tree is then no tree of directories any more (a file with
+	// two names becomes one directory with two paths).
+	var kcs []kindChange
+	if len(changed) > 0 {
+		kcs = kindChanges(before, after)
+	}
+
+	for _, kc := range kcs {
+		if c.Op == "Rename" && res.Kind == "ok" && s.underAny(kc.path, tch) {
+			continue
+		}
+
+		viols = append(viols, bfs.Viol{Sig: sig("entry-kind-changed", "from", kc.from, "to", kc.to), Detail: fmt.Sprintf("%q was %s and is %s after %s", kc.path, kc.from, kc.to, c)})
+	}
+
 	// frame conditions
 	if res.Kind != "ok" {
 		if len(changed) > 0 && c.Op != "RemoveAll" {
@@ -257,10 +276,33 @@ func (s *sys) Step(op int) bsr {
 		}
 	}
 
-	// public API walk
-	if len(changed) > 0 && !poisoned && len(bad) == 0 {
+	// public API walk after every change of the tree. The dump shows the
+	// permission and special bits of a mode word only, so a stray bit changes no
+	// line: after a call whose mode argument carries more than those bits, the
+	// entries it names are looked at even when the dump is the same.
+	switch {
+	case poisoned || len(bad) > 0:
+	case len(changed) > 0:
 		for _, b := range s.apiCheck(after) {
 			viols = append(viols, bfs.Viol{Sig: sig("api", "what", stripPaths(b)), Detail: b})
+		}
+	case c.Mode != 0:
+		kind := kindsOf(after)
+
+		for i, t := range tch {
+			if i > 0 && t == tch[i-1] {
+				continue
+			}
+
+			if fi, err := s.v.Lstat(t); err == nil {
+				if len(t) > 1 {
+					t = strings.TrimSuffix(t, s.sep)
+				}
+
+				for _, b := range modeBad(kind, t, fi.Mode()) {
+					viols = append(viols, bfs.Viol{Sig: sig("api", "what", stripPaths(b)), Detail: b})
+				}
+			}
 		}
 	}
 
@@ -275,6 +317,67 @@ func (s *sys) Step(op int) bsr {
 }
 
 type bsr = bfs.StepResult
+
+// kindOf extracts the kind of a VerifDump line (second field: d, f, l).
+func kindOf(line string) string {
+	i := strings.Index(line, " ")
+	if i < 0 {
+		return ""
+	}
+
+	rest := line[i+1:]
+	if j := strings.Index(rest, " "); j >= 0 {
+		rest = rest[:j]
+	}
+
+	return rest
+}
+
+type kindChange struct{ path, from, to string }
+
+// kindsOf maps the paths of a dump to the kinds of their nodes. A path that
+// two lines claim gets no kind: the entry with the empty name that OrefaFS
+// makes of a root operand (known finding) is spelled like the root itself.
+func kindsOf(dump []string) map[string]string {
+	m := map[string]string{}
+
+	for _, l := range dump {
+		p, k := pathOf(l), kindOf(l)
+		if _, dup := m[p]; dup || (k != "d" && k != "f" && k != "l") {
+			k = ""
+		}
+
+		m[p] = k
+	}
+
+	return m
+}
+
+// kindChanges lists the paths present in both dumps with different kinds.
+func kindChanges(before, after []string) []kindChange {
+	kb, ka := kindsOf(before), kindsOf(after)
+
+	var out []kindChange
+
+	for _, l := range after {
+		p := pathOf(l)
+		if b, a := kb[p], ka[p]; b != "" && a != "" && b != a {
+			out = append(out, kindChange{p, b, a})
+		}
+	}
+
+	return out
+}
+
+func (s *sys) underAny(p string, roots []string) bool {
+	for _, r := range roots {
+		if s.under(p, r) {
+			return true
+		}
+	}
+
+	return false
+}
 
 func (s *sys) osName() string {
 	if s.win {
@@ -546,6 +649,11 @@ func (s *sys) apiCheck(dump []string) []string {
 
 	var files []fent
 
+	// kind of every node as the node graph has it
+	kind := kindsOf(dump)
+
+	checkMode := func(cp string, m fs.FileMode) { bad = append(bad, modeBad(kind, cp, m)...) }
+
 	// candidate names for the "Lstat succeeds => listed" direction
 	cand := map[string]bool{"a": true, "ab": true, "tmp": true}
 
@@ -598,6 +706,8 @@ func (s *sys) apiCheck(dump []string) []string {
 			if fi.Mode().Type() != e.Type() {
 				bad = append(bad, fmt.Sprintf("%q: entry type differs from Lstat type", cp))
 			}
+
+			checkMode(cp, fi.Mode())
 
 			switch {
 			case fi.IsDir():
@@ -652,6 +762,8 @@ func (s *sys) apiCheck(dump []string) []string {
 				continue
 			}
 
+			checkMode(p, fi.Mode())
+
 			if fi.IsDir() {
 				walk(p, 1)
 			} else if fi.Mode().IsRegular() {
@@ -684,6 +796,53 @@ func (s *sys) apiCheck(dump []string) []string {
 	}
 
 	return bad
+}
+
+// modeBad: the mode Lstat reports says exactly one of directory / regular
+// file / symbolic link, the one the node is (kind: path -> kind in the node
+// graph), and carries nothing besides the type, the permission bits and
+// setuid/setgid/sticky (no call of the interface sets anything else: such a
+// bit can only have leaked from a mode argument).
+func modeBad(kind map[string]string, cp string, m fs.FileMode) []string {
+	var bad []string
+
+	var want fs.FileMode
+
+	known := true
+
+	switch kind[cp] {
+	case "d":
+		want = fs.ModeDir
+	case "f":
+	case "l":
+		want = fs.ModeSymlink
+	default:
+		known = false
+	}
+
+	switch t := m.Type(); {
+	case known && t != want:
+		bad = append(bad, fmt.Sprintf("Lstat(%q) reports type %s, the node is of kind %s", cp, typeLetters(t), kind[cp]))
+	case t != 0 && t != fs.ModeDir && t != fs.ModeSymlink:
+		bad = append(bad, fmt.Sprintf("Lstat(%q) reports type %s: not a directory, a regular file or a symbolic link", cp, typeLetters(t)))
+	}
+
+	if x := m &^ (fs.ModeType | avfs.FileModeMask); x != 0 {
+		bad = append(bad, fmt.Sprintf("Lstat(%q) reports mode bits %s besides type, permission and special bits", cp, typeLetters(x)))
+	}
+
+	return bad
+}
+
+// typeLetters renders mode bits without the permission part in the letters
+// of fs.FileMode.String: (d), (L), (dL); (-) for none (a regular file).
+func typeLetters(m fs.FileMode) string {
+	l := strings.TrimRight((m &^ fs.ModePerm).String(), "-")
+	if l == "" {
+		l = "-"
+	}
+
+	return "(" + l + ")"
 }
 
 func buildOps(name string, win bool, tier string) []fsx.Call {
@@ -719,6 +878,11 @@ func buildOps(name string, win bool, tier string) []fsx.Call {
 
 	all := append(append([]string{}, paths...), extra...)
 
+	canonical := map[string]bool{}
+	for _, p := range paths {
+		canonical[p] = true
+	}
+
 	var ops []fsx.Call
 
 	for _, p := range all {
@@ -734,11 +898,34 @@ func buildOps(name string, win bool, tier string) []fsx.Call {
 			fsx.Call{Op: "Chdir", A: p},
 		)
 
+		// A mode argument is ANY fs.FileMode, not a permission value: every call
+		// that takes one (Chmod, File.Chmod, Mkdir, MkdirAll, OpenFile, WriteFile)
+		// is handed modes that carry file type bits - typically a mode copied
+		// from Stat of another node, fi.Mode() of a directory or of a symbolic
+		// link - and bits outside permission|setuid|setgid|sticky. Package os
+		// uses the permission and special bits only; code that keeps the kind of
+		// a node in the same word as its permissions must mask. Every such call
+		// is issued on every path of the name universe (every node kind, every
+		// position, missing, below a file) - thorough: on the invalid and unclean
+		// spellings too (what a mode does to a node does not depend on how the
+		// node was spelled). The permission bits are those of the plain call, so
+		// that a library that masks reaches no new state through these calls.
+		if tier == "thorough" || canonical[p] {
+			for _, c := range modeCalls(p) {
+				for _, m := range typeModes(c.Op, tier) {
+					c.Mode = uint32(m &^ avfs.FileModeMask)
+					c.Perm = c.Perm&0o777 | unixSpecial(m)
+					ops = append(ops, c)
+				}
+			}
+		}
+
 		if tier == "thorough" {
 			ops = append(ops,
 				fsx.Call{Op: "Create", A: p},
 				fsx.Call{Op: "Truncate", A: p, N: -1},
 				fsx.Call{Op: "Chown", A: p, N: 7, M: 8},
+				fsx.Call{Op: "FChmod", A: p, Perm: 0o700},
 				fsx.Call{Op: "AppendFile", A: p, Data: "yz"},
 				fsx.Call{Op: "ReadDir", A: p},
 				fsx.Call{Op: "Stat", A: p},
@@ -754,6 +941,13 @@ func buildOps(name string, win bool, tier string) []fsx.Call {
 				fsx.Call{Op: "Sub/WriteFile", A: p, Data: "v", Perm: 0o644},
 				fsx.Call{Op: "Sub/Mkdir", A: p, Perm: 0o755},
 			)
+
+			if tier == "thorough" {
+				ops = append(ops,
+					fsx.Call{Op: "Sub/WriteFile", A: p, Data: "v", Perm: 0o644, Mode: uint32(fs.ModeDir)},
+					fsx.Call{Op: "Sub/Mkdir", A: p, Perm: 0o755, Mode: uint32(fs.ModeSymlink)},
+				)
+			}
 		}
 	}
 
@@ -777,6 +971,92 @@ func buildOps(name string, win bool, tier string) []fsx.Call {
 	}
 
 	return ops
+}
+
+// modeCalls returns the calls on p that take a mode argument, with the
+// permission bits of the plain calls of the alphabet. FChmod is File.Chmod on
+// a handle opened read-only (its own code path in both file systems).
+func modeCalls(p string) []fsx.Call {
+	return []fsx.Call{
+		{Op: "Chmod", A: p, Perm: 0o700},
+		{Op: "FChmod", A: p, Perm: 0o700},
+		{Op: "Mkdir", A: p, Perm: 0o755},
+		{Op: "MkdirAll", A: p, Perm: 0o750},
+		{Op: "WriteFile", A: p, Data: "x", Perm: 0o644},
+		{Op: "OpenFile", A: p, Flag: os.O_RDWR | os.O_CREATE | os.O_EXCL, Perm: 0o600},
+	}
+}
+
+// outsideMask is every fs.FileMode bit that is neither a permission nor a
+// special bit: all type bits and append-only / exclusive / temporary.
+const outsideMask = fs.ModeType | fs.ModeAppend | fs.ModeExclusive | fs.ModeTemporary
+
+const specialBits = fs.ModeSetuid | fs.ModeSetgid | fs.ModeSticky
+
+// typeModes lists the bits or'ed into the mode argument of op (the permission
+// bits are added by the caller). A dropped mask shows with any bit the node
+// does not already carry, so what matters is a type FOREIGN to the node the
+// call acts on or creates: the directory bit for calls that make or change
+// files, another type for calls that make directories, both for Chmod and
+// File.Chmod, which act on every node kind. Quick: exactly that. Thorough: for
+// every call the directory bit, the link bit, the other types, everything
+// outside the mask at once, and a type together with the three special bits.
+func typeModes(op, tier string) []fs.FileMode {
+	if tier == "thorough" {
+		return []fs.FileMode{
+			fs.ModeDir, fs.ModeSymlink, fs.ModeNamedPipe, fs.ModeDevice | fs.ModeCharDevice,
+			outsideMask, fs.ModeSymlink | specialBits,
+		}
+	}
+
+	switch op {
+	case "Chmod", "FChmod":
+		return []fs.FileMode{fs.ModeDir, fs.ModeSymlink}
+	case "Mkdir", "MkdirAll":
+		return []fs.FileMode{fs.ModeSymlink}
+	}
+
+	return []fs.FileMode{fs.ModeDir}
+}
+
+// unixSpecial returns the special bits of m in the Unix layout of fsx.Call.Perm.
+func unixSpecial(m fs.FileMode) uint32 {
+	var p uint32
+
+	if m&fs.ModeSetuid != 0 {
+		p |= 0o4000
+	}
+
+	if m&fs.ModeSetgid != 0 {
+		p |= 0o2000
+	}
+
+	if m&fs.ModeSticky != 0 {
+		p |= 0o1000
+	}
+
+	return p
+}
+
+// modeArgsText describes the mode dimension for the evidence file.
+func modeArgsText(tier string) string {
+	var parts []string
+
+	for _, c := range modeCalls("p") {
+		var ms []string
+		for _, m := range typeModes(c.Op, tier) {
+			ms = append(ms, typeLetters(m)+fmt.Sprintf("|%#o", c.Perm))
+		}
+
+		parts = append(parts, c.Op+": "+strings.Join(ms, " "))
+	}
+
+	where := "every path of the name universe (root, a, ab, x/y)"
+	if tier == "thorough" {
+		where = "every operand path (canonical, unclean, relative, empty)"
+	}
+
+	return "bits or'ed into the mode argument, in the letters of fs.FileMode.String, per call, on " + where + ": " + strings.Join(parts, "; ")
 }
 
 func factory(tier string) func(string) bfs.System {
@@ -1027,15 +1307,18 @@ func main() {
 		Coverage: map[string]any{
 			"states": states, "transitions": trans, "traces_validated_against_impl": trans,
 			"evaluations": trans, "distinct_nontrivial": len(outcomes),
-			"rule":       "every history of length <= bound over the call alphabet (valid, invalid and aliased operands) executed on fresh real instances; distinct_nontrivial = distinct (call, outcome kind) classes observed",
-			"samples":    samples,
-			"exhaustive": exh, "bound": fmt.Sprintf("histories of length <= %d (completed %d)", d, depthDone),
+			"rule":           "every history of length <= bound over the call alphabet (valid, invalid and aliased operands; every call that takes a mode - Chmod, File.Chmod, Mkdir, MkdirAll, OpenFile, WriteFile - also with a mode argument that carries file type bits foreign to the node, on every path of the name universe) executed on fresh real instances; distinct_nontrivial = distinct (call, outcome kind) classes observed",
+			"mode_arguments": modeArgsText(*tier),
+			"samples":        samples,
+			"exhaustive":     exh, "bound": fmt.Sprintf("histories of length <= %d (completed %d)", d, depthDone),
 			"systems": all, "known_findings_matched": rep.KnownMatched(), "ostype_build": ostBuild, "windows_typed_run": ostRun, "concurrent_final_state_invariants": conc,
 		},
 		Assumptions: []string{
 			"state identity = injected node-graph dump (VerifDump) + cwd; mtimes and inode numbers are not part of a state",
 			"a successful call may change: its operands, what they resolve to, everything below them, members of their hard-link classes, ancestors created by MkdirAll, the temp name returned",
 			"random part of temp names is supplied by the harness (2 values, forced collisions)",
+			"the kind of an entry (directory / regular file / symbolic link) never changes while the entry exists, except at the destination of a successful Rename; Lstat reports exactly that kind and no mode bit besides type, permission, setuid, setgid, sticky (the mode argument of a call is any fs.FileMode; as in package os only its permission and special bits are used)",
+			"mode arguments with type bits keep the permission bits of the plain call of the alphabet (a library that masks reaches no further state); special bits are combined with type bits in the thorough tier only",
 		},
 		Violations: rep.NewCount(),
 	}
